@@ -91,7 +91,7 @@ Definition timer_matches (a : agg) (o : tobs) : bool :=
          && near (smax + qabs (t_mean t))%Qc (t_mean t) (o_mean ob)
          && same (t_median t) (o_median ob) && same (t_min t) (o_min ob) && same (t_max t) (o_max ob)
          && fin (o_stddev ob)
-         && close (smax * smax + qabs (t_var t))%Qc (t_var t) (Qc_of_bits (o_stddev ob) * Qc_of_bits (o_stddev ob))%Qc
+         && var_close (length xs) smax (t_var t) (Qc_of_bits (o_stddev ob) * Qc_of_bits (o_stddev ob))%Qc
          && same (t_sum t) (o_sum ob) && same (t_sumsq t) (o_sumsq ob) then
       if (length (o_pcts ob) =? length (t_pcts t))%nat
          && forallb (λ e, forall2b (pct_val_ok sc (fst e)) (group (fst e) (t_pcts t)) (group (fst e) (o_pcts ob)))
